@@ -468,6 +468,10 @@ func (wf *Workflow[I, O]) compile(ctx context.Context, options *graphCompileOpti
 				return nil, err
 			}
 
+			if err := validateStaticValues(wf.g.getNodeInputType(n.key), n.staticValues); err != nil {
+				return nil, fmt.Errorf("node[%s]: %w", n.key, err)
+			}
+
 			pair := handlerPair{
 				invoke: func(in any) (any, error) {
 					values := []any{in, value}
